@@ -162,9 +162,14 @@ def rules? : Sx → Option (List (PageRule Val))
     | _ => pure []
   | _ => none
 
-def sets? (x : Sx) : Option (List (String × String)) :=
+def setPiece? : Sx → Option SetPiece
+  | .list [.atom "text", t] => (str? t).map .text
+  | .list [.atom "counter", n] => (str? n).map .counter
+  | _ => none
+
+def sets? (x : Sx) : Option (List (String × List SetPiece)) :=
   x.list?.bind (allSome (fun e => match e with
-    | .list [n, v] => do pure (← str? n, ← str? v)
+    | .list [n, .list ps] => do pure (← str? n, ← allSome setPiece? ps)
     | _ => none))
 
 def section? : Sx → Option Section
